@@ -181,6 +181,13 @@ def main(argv=None):
   if a.replay:
     with open(a.replay) as f:
       payload = json.load(f)
+    if (payload.get('replay') or {}).get('fn') == 'inline':
+      log('this witness was replayed on the real code inside the check run; recorded result:')
+      log(json.dumps(payload.get('replay_result'), indent=1, default=str))
+      ok = bool((payload.get('replay_result') or {}).get('reproduced'))
+      if ok:
+        log('VIOLATION property=%s replay=%s' % (prop, a.replay))
+      return 1 if ok else 0
     res = run_tasks(modname, [('replay', 'replay', payload, 900)], 1, log)['replay']
     log(json.dumps(res[1], indent=1, default=str) if res[0] == 'done' else str(res))
     ok = res[0] == 'done' and res[1].get('reproduced')
@@ -240,10 +247,11 @@ def main(argv=None):
       unknown.append(r)
     candidates = [r for r in candidates if r.get('replay')]
     for i, r in enumerate(candidates):
-      rtasks.append(('replay%d' % i, 'replay', r, 600))
-    rout = run_tasks(modname, rtasks, a.jobs, log)
+      if 'replay_result' not in r:
+        rtasks.append(('replay%d' % i, 'replay', r, 600))
+    rout = run_tasks(modname, rtasks, a.jobs, log) if rtasks else {}
     for i, r in enumerate(candidates):
-      st, o = rout['replay%d' % i]
+      st, o = rout['replay%d' % i] if ('replay%d' % i) in rout else ('done', r['replay_result'])
       if st != 'done':
         harness_errors.append('replay of %s/%s failed: %s' % (r['case'], r['query'], str(o)[-300:]))
         continue
